@@ -277,12 +277,14 @@ let lane_setup args =
   | [_; scheme; host; port; stls; std; tmo] ->
       if scheme = "-" then "err:url" else begin
         let st = { starttls0 = (stls = "1"); std_stream = (match std with "tcp" -> Some StTcp | "unix" -> Some StUnix | "invalid" -> Some StInvalid | _ -> None); has_timeout = (tmo <> "none") } in
-        let h = if host = "none" then None else Some (bytes_of_hex host) in
+        (* "noauth": the URL has no "//" after the scheme - no authority part, hence no host (F57) *)
+        let auth = host <> "noauth" in
+        let h = if host = "none" || host = "noauth" then None else Some (bytes_of_hex host) in
         let p = if port = "none" then None else Some (n_of_decimal port) in
         let mode = function Plain -> "plain" | StartTls -> "starttls" | Ldaps -> "ldaps" in
-        match plan_of repaired18 (bytes_of_string scheme) h p st with
+        match plan_of_auth repaired18 auth (bytes_of_string scheme) h p st with
         | PPanic -> "panic"
-        | PErr0 EEmptyUnixPath -> "err:emptyunix" | PErr0 EPortInUnixPath -> "err:portunix" | PErr0 EMismatched -> "err:mismatched" | PErr0 EUnknownScheme -> "err:scheme" | PErr0 EStartTlsUnix -> "err:io no-contact"
+        | PErr0 EEmptyUnixPath -> "err:emptyunix" | PErr0 EPortInUnixPath -> "err:portunix" | PErr0 EMismatched -> "err:mismatched" | PErr0 EUnknownScheme -> "err:scheme" | PErr0 ENoAuthority -> "err:url" | PErr0 EStartTlsUnix -> "err:io no-contact"
         | PTcp (_, port, m, _) -> Printf.sprintf "tcp port=%s mode=%s" (decimal_of_n port) (mode m)
         | PPreTcp (m, _) -> "pretcp mode=" ^ mode m
         | PUnix path ->       (* the lane listens on two socket paths (one of them not UTF-8): any other path cannot be connected to *)
